@@ -3,6 +3,7 @@ import vlib
 from genmodel import *
 
 ID = "C04"
+HARNESS_ENV = {"COCA_BIN": __import__("os").path.join(vlib.ROOT, "harness", "bin", "coca")}
 MODEL_ENTRY = "C04.model"
 SPEC_ENTRY = "C04.spec"
 HARNESS_OP = "C04"
